@@ -290,6 +290,16 @@ def query_kind(exp, got):
     return "other"
 
 
+def ext_applies(path, ext):
+    """ext is judged only together with a path it can extend"""
+    if ext is None:
+        return True
+    if path is None:
+        return False
+    pstr = path if isinstance(path, str) else "/".join(str(x) for x in path)
+    return pstr.strip("/") != "" and not pstr.endswith("/")
+
+
 def judge_result(c, r, fav):
     """mechanism suffixes (without the 'C20:format_url:' head) for result r of case c"""
     bad = []
@@ -308,8 +318,7 @@ def judge_result(c, r, fav):
     else:
         pstr = path if isinstance(path, str) else "/".join(str(x) for x in path)
         exp_head = bhead.rstrip("/") + "/" + pstr.lstrip("/")
-    ext_ok = ext is None or (pstr is not None and pstr.strip("/") != "" and not pstr.endswith("/"))
-    if not ext_ok:
+    if not ext_applies(path, ext):
         return None  # ext without a path it could extend: outside what the statement describes
     if ext is not None:
         exp_head += "." + ext.lstrip(".")
@@ -330,10 +339,8 @@ def judge_result(c, r, fav):
     got = items_of(rq)
     if bq is None:
         if not exp:
-            if bclass == "plain-base" and rq is not None:
-                bad.append(("qmark-without-retained-argument", {"got": r}))
-            elif bclass != "plain-base" and "?" in r and "?" not in base:
-                bad.append(("query:" + bclass, {"got": r}))
+            if rq is not None:
+                bad.append(("qmark-without-retained-argument" if bclass == "plain-base" else "query:" + bclass, {"got": r}))
         elif [(k, v) for k, v, _ in exp] != got:
             if bclass == "plain-base":
                 bad.append(("query:plain-base:" + query_kind(exp, got), {"want": [[k, v] for k, v, _ in exp], "got": [list(x) for x in got], "url": r}))
@@ -548,7 +555,7 @@ def judge_formatter(ctx, w):
             continue
         merged[k] = d[k] if absent(k, c[k]) else c[k]
     merged["args"], supported = merge_args(d["args"], c["args"])
-    if not supported or merged["base_url"] is None:
+    if not supported or merged["base_url"] is None or not ext_applies(spec_value("path", merged["path"]), merged["ext"]):
         return None
     try:
         if w.get("via") == "subclass":
@@ -622,7 +629,7 @@ def simpler_formatter(w):
 def check_formatter(ctx, w, shrink=True):
     bad = judge_formatter(ctx, w)
     if bad is None:
-        ctx.count("formatter-unsupported-merge-not-judged")
+        ctx.count("formatter-unsupported-merge-or-ext-without-path-not-judged")
         return
     ctx.ev(2)
     d, c = w["defaults"], w["call"]
